@@ -138,7 +138,7 @@ PROPS = {
         level='other',
         technique='Verus: extracted merge/tick/sync_time proved equal to a fold spec + convergence theorem; Kani: supersedes is a strict order',
         claim='real merge == left fold of "adopt iff greater in a strict total order" (Verus, all maps and batches); that fold is independent of order/grouping/repetition (Verus theorem); clock and merged incarnation never decrease; supersedes order kernel (Kani, all states)',
-        explanation='',
+        explanation='CRDT mutators, clock and merge proved (Verus, Kani); the gossip manager as caller of those contracts and long merge orders are bounded (c17_manager, c17_merge).',
     ),
     'C18': dict(
         v=[], k=[('graph_engine', ['c18_dijkstra_entry_total_order', 'c18_dijkstra_entry_min_heap_direction'])], b=['c18_paths'],
